@@ -28,7 +28,7 @@ SigShapes(kt) == IF kt = "ed" THEN {"any"} ELSE {"normal", "r_leading_zero", "s_
 
 \* what may happen to a JWS between signing and verifying
 Tampers == {"none", "header_content", "payload_byte", "signature_bit", "other_key_same_type", "other_key_other_type",
-            "signature_truncated", "signature_padded", "signature_empty", "unsupported_kty", "two_segments", "four_segments",
+            "signature_truncated", "signature_padded", "signature_empty", "signature_der", "unsupported_kty", "two_segments", "four_segments",
             "empty_payload_segment", "bad_base64_header", "bad_base64_payload", "bad_base64_signature", "header_not_json",
             "header_reserialized"}
 
@@ -58,8 +58,9 @@ Verifies(c) == LET p == Presented(c) IN Verify(p.key, p.msg, p.sig)
 CoordShapes(kt) == IF kt = "ed" THEN {"any"}
                    ELSE {"normal", "x_leading_zero", "y_leading_zero"}
                           \cup (IF kt \in {"k1", "p256"} THEN {"x_two_leading_zeros", "both_leading_zero"} ELSE {})
-JwkMods == {"none", "off_curve", "x_short", "x_long", "y_short", "y_long", "x_empty", "wrong_crv_name", "x_not_base64"}
-ModApplies(kt, m) == kt # "ed" \/ m \in {"none", "x_short", "x_long", "x_empty", "x_not_base64"}
+\* x_short_shadowed: the x member is too short and a member "X" (another letter case: another member) holds the right one
+JwkMods == {"none", "off_curve", "x_short", "x_long", "y_short", "y_long", "x_empty", "wrong_crv_name", "x_not_base64", "x_short_shadowed"}
+ModApplies(kt, m) == kt # "ed" \/ m \in {"none", "x_short", "x_long", "x_empty", "x_not_base64", "x_short_shadowed"}
 
 JwkCases == {[kind |-> "jwk", kt |-> kt, shape |-> sh, mod |-> m] : kt \in KeyTypes,
                sh \in {"any", "normal", "x_leading_zero", "y_leading_zero", "x_two_leading_zeros", "both_leading_zero"}, m \in JwkMods}
